@@ -15,8 +15,15 @@ for d in sorted(glob.glob(ROOT+'/C*-out/[12]')):
     meta=json.load(open(os.path.join(d,'meta.json')))
     pid=meta['property']; k=int(os.path.basename(d))+OFFSET
     name=f"{pid}-{k}"
+    neutralised=False
     if not (result.startswith('caught-by') or result=='MISSED'):
-        rows.append((name,result,'not kept')); continue
+        fp0=os.path.join(d,'verify.firstpass.log')
+        m0=re.search(r'^RESULT (.*)$',open(fp0).read(),re.M) if os.path.exists(fp0) else None
+        if m0 and m0.group(1).startswith('caught-by'):
+            # confirmed and caught when it arrived; a later fix commit of /repo took its effect away
+            neutralised=True; txt=open(fp0).read(); result=m0.group(1).strip()+' (when it arrived; no longer breaks the property after later fix commits)'
+        else:
+            rows.append((name,result,'not kept')); continue
     dst=f'/verif/seeded/{name}'
     os.makedirs(dst,exist_ok=True)
     for f in ('patch.diff','demo_test.go'):
